@@ -65,6 +65,7 @@ def updMax (mt : Token) (t : Token) : Token := if t.b ≠ t.e ∧ t.e > mt.e the
 structure RunCtx where
   o : Opts
   L : Linked
+  Gsw : Grammar               -- the grammar after the `-switch` rewrite (= `L.G` without `-switch`)
   P : Program
   acts : List String          -- names of action rules
   codeOf : String → String    -- action rule ↦ code
@@ -131,9 +132,20 @@ def reachTrace (ctx : RunCtx) (inp : List Sym) (evs : List Token) : String :=
 
 def specObs (ctx : RunCtx) (entry : String) (inp : List Sym) : Json :=
   let fuel := 2000 + 40 * inp.length
+  -- Verdict, end and derivation forest: the PEG semantics of the ORIGINAL grammar (that is the
+  -- property).  The ATTEMPTED tokens (error token; under -noast the inline actions that are reached)
+  -- are those of the grammar the emission works on: with -switch the rewritten grammar, whose
+  -- dispatch does not enter alternatives that cannot match the next symbol.
+  let evsOf (evs : List Token) : List Token :=
+    if ctx.o.switch then
+      match evalF ctx.Gsw rhoOf inp fuel (.name entry) 0 with
+      | some (_, evs') => evs'
+      | none => evs
+    else evs
   match evalF ctx.L.G rhoOf inp fuel (.name entry) 0 with
   | none => Json.mkObj [("v", "nofuel")]
-  | some (.ok _ f, evs) =>
+  | some (.ok _ f, evs0) =>
+    let evs := evsOf evs0
     let toks := postorderL f
     if ctx.o.ast then
       match execute ctx.acts (bufOf inp) toks with
@@ -142,7 +154,8 @@ def specObs (ctx : RunCtx) (entry : String) (inp : List Sym) : Json :=
         let trace := aevs.foldl (fun acc ev => acc ++ (renderProbe (ctx.codeOf ev.action) ev.text).2) ""
         obsCommon ctx inp "ok" toks zeroTok trace ""
     else obsCommon ctx inp "ok" [] zeroTok (reachTrace ctx inp evs) ""
-  | some (.fail, evs) =>
+  | some (.fail, evs0) =>
+    let evs := evsOf evs0
     -- under -noast a capture is inlined (`cap`), it is not a token
     let tevs := if ctx.o.ast then evs else evs.filter (fun t => t.rule != "PegText")
     let mt := tevs.foldl updMax zeroTok
@@ -165,7 +178,7 @@ def runOne (line : String) : String :=
         | .ok g => pure g
         | .error e => throw s!"optimise: {e}"
       let P := compileAll o G'
-      let ctx : RunCtx := { o := o, L := L, P := P, acts := L.actions.map (·.1),
+      let ctx : RunCtx := { o := o, L := L, Gsw := G', P := P, acts := L.actions.map (·.1),
                             codeOf := fun n => ((L.actions.find? (·.1 == n)).map (·.2)).getD "" }
       let cases ← match (← j.getObjVal? "cases") with
         | .arr a => pure a
